@@ -76,7 +76,7 @@ class IOWorld(Machine):
                    "an export that reports success although an error was injected into it is judged like any successful export: what it wrote must read back (an error that is swallowed after the data is safe, e.g. on close, changes nothing)",
                    "under an injected fault: the faulted operation may fail and leave its own path dirty; it may never "
                    "damage a refused path or any other path, and un-faulted operations must stay exact"]
-    REQUIRED_PROBES = ("refused_ljson", "refused_pts", "refused_pickle", "refused_pickle_gz", "refused_image", "refused_video",
+    REQUIRED_PROBES = ("overwrite_flag_is_a_numpy_bool", "grey_picture_held_as_rgb", "refused_ljson", "refused_pts", "refused_pickle", "refused_pickle_gz", "refused_image", "refused_video",
                        "refused_foreign", "refused_dirty", "overwrite_longer_by_shorter", "multi_dot_name", "pkl_gz_roundtrip",
                        "float_image", "uint8_image_roundtrip", "import_export_reimport", "nan_landmark", "manager_ge2_groups",
                        "unicode_label", "spelling_0", "spelling_1", "spelling_2", "spelling_3", "spelling_4", "spelling_5", "spelling_6", "spelling_7",
@@ -370,12 +370,28 @@ class IOWorld(Machine):
             return o
         raise ValueError(k)
 
+    def _ow(self, op):
+        """The caller's overwrite flag: a bool, or what a comparison of arrays / a count yields (a NumPy bool, 0 or 1)."""
+        v = bool(op["ow"])
+        how = (op["seed"] >> 5) % 4
+        if how == 1:
+            self.ctx.probe("overwrite_flag_is_a_numpy_bool")
+            return np.bool_(v)
+        if how == 2:
+            return int(v)
+        return v
+
     def img_object(self, kind, seed, ext):
         g = rs(seed)
         h, w = int(g.randint(1, 9)), int(g.randint(1, 10))
         e = ext.lower()
         ch = 3 if e == ".ppm" else (1 if e == ".pgm" else (3 if g.rand() < 0.5 else 1))
         which = kind % 5
+        if ch == 3 and which in (0, 1) and (seed >> 3) % 4 == 0:
+            # a grey picture held as RGB: three equal channels are three channels
+            u = np.repeat(g.randint(0, 256, size=(1, h, w)).astype(np.uint8), 3, axis=0)
+            self.ctx.probe("grey_picture_held_as_rgb")
+            return (Image(u * (1.0 / 255.0)), u, "u8float") if which == 0 else (Image(u.copy()), u, "u8")
         if which == 4:      # masked image: the pixel data is what is exported
             u = g.randint(0, 256, size=(ch, h, w)).astype(np.uint8)
             mask = g.rand(h, w) < 0.6
@@ -551,7 +567,7 @@ class IOWorld(Machine):
             e0 = ".pts" if pts else ".ljson"
             kw["extension"] = [e0, e0[1:], e0.upper()][op["kind"] % 3]
             self.ctx.probe("explicit_extension_kwarg")
-        return self._export(op, before, rel, lambda: mio.export_landmark_file(obj, fp, overwrite=bool(op["ow"]), **kw),
+        return self._export(op, before, rel, lambda: mio.export_landmark_file(obj, fp, overwrite=self._ow(op), **kw),
                             kind, snap, self._check_lm)
 
     def _op_export_pickle(self, op, before):
@@ -560,7 +576,7 @@ class IOWorld(Machine):
         rel = self.relname(op, ".pkl.gz" if gz else ".pkl")
         fp = self.spelled(rel, op["spell"])
         snap = obj
-        return self._export(op, before, rel, lambda: mio.export_pickle(obj, fp, overwrite=bool(op["ow"]), protocol=op["proto"]),
+        return self._export(op, before, rel, lambda: mio.export_pickle(obj, fp, overwrite=self._ow(op), protocol=op["proto"]),
                             "pklgz" if gz else "pkl", snap, self._check_pickle)
 
     def _op_export_image(self, op, before):
@@ -572,7 +588,7 @@ class IOWorld(Machine):
         if op["proto"] == 3:
             kw["extension"] = [ext, ext[1:], ext.upper()][op["seed"] % 3]
             self.ctx.probe("explicit_extension_kwarg")
-        return self._export(op, before, rel, lambda: mio.export_image(img, fp, overwrite=bool(op["ow"]), **kw),
+        return self._export(op, before, rel, lambda: mio.export_image(img, fp, overwrite=self._ow(op), **kw),
                             "img", (tag, data), self._check_image)
 
     def _op_export_video(self, op, before):
@@ -582,7 +598,7 @@ class IOWorld(Machine):
         frames = [Image(g.randint(0, 256, size=(3, 4, 6)).astype(np.uint8)) for _ in range(2)]
         existed = rel in before
         try:
-            mio.export_video(frames, fp, overwrite=bool(op["ow"]))
+            mio.export_video(frames, fp, overwrite=self._ow(op))
             exc = None
         except Exception as e:
             exc = e
